@@ -158,7 +158,8 @@ pub fn match_expr(pat: &Expr, e: &Expr, b: &mut HashMap<String, Expr>) -> bool {
                     match after.find(");") { Some(j) => rest = &after[j + 2..], None => rest = "" }
                 }
                 out.push_str(rest);
-                out.replace("{", "").replace("}", "")
+                // trailing commas (rustfmt style) and braces do not matter
+                out.replace(",}", "}").replace(",)", ")").replace(",]", "]").replace("{", "").replace("}", "")
             };
             strip(norm(p.to_token_stream())) == strip(norm(x.to_token_stream()))
         }
